@@ -161,10 +161,10 @@ def gen_sequence_c04(rng):
         f = lv[0]
         if abs(f) >= 2:
             lv.append(int(math.copysign(rng.randint(1, abs(f) - 1), f)))
-    elif r < 0.22:                         # trailing plateau
-        lv += [lv[-1]] * rng.randint(1, 3)
+    elif r < 0.22:                         # trailing plateau (a dwell at the end of the recording may be long)
+        lv += [lv[-1]] * rng.choice([1, 2, 3, 3, 40, 70, 130])
     elif r < 0.30:                         # leading plateau
-        lv = [lv[0]] * rng.randint(1, 3) + lv
+        lv = [lv[0]] * rng.choice([1, 2, 3, 3, 40, 70]) + lv
     elif r < 0.38:                         # abs max only at the end (and in a trailing plateau)
         m = max(abs(x) for x in lv) + 1
         lv += [rng.choice([-1, 1]) * m] * rng.randint(1, 3)
@@ -925,7 +925,7 @@ def shrink(prop, trace):
 
 def classify(prop, trace, v):
     sig = "%s/%s" % (v["oracle"], v["component"])
-    if prop == "C04" and v["oracle"].startswith("J1"):
+    if prop == "C04" and v["oracle"].startswith("J1") and v["component"] == "second-pass" and "missing" in v["detail"]:
         d = v["detail"]
         lv = [int(x) for x in d["levels"]]
         step = float(d["step"])
